@@ -24,6 +24,7 @@ OBLIGATIONS = [
     "NanoVerif.TrProofs.f2dot14_safe_eq",
     "NanoVerif.TrProofs.fixed_safe_eq",
     "NanoVerif.TrProofs.transformed_eq",
+    "NanoVerif.TrProofs.gettransform_eq",
 ]
 DESIGN_REF = "DESIGN.md §5 C16"
 LEVEL_TEXT = ("Lean theorems over a line-by-line model of paint.transformed / gettransform / _decompose_uniform_transform / "
